@@ -54,3 +54,9 @@ def extend(ctx: Ctx, mod) -> None:
     for r in ref:
         if r["status"] == "ALARM":
             ctx.note(f"false alarm on behaviour-preserving refactoring {r['name']}: {r.get('rules')} {r.get('detail', '')[:100]}")
+    # sensitivity sample: syntactic mutants of the property's anchor functions, analysed in memory by this property's rules only
+    try:
+        from . import mutate
+        ctx.extra["mutation_sample"] = mutate.sample_for_property(ctx.prop, ctx.repo)
+    except Exception as e:  # noqa  (informational only)
+        ctx.note(f"mutation sample not available: {type(e).__name__}: {e}")
